@@ -207,3 +207,81 @@ func ParseBytesList(ans string) ([]string, error) {
 	}
 	return res, nil
 }
+
+// Member is one archive member in the model's vocabulary (lean: Nfpm.Member).
+type Member struct {
+	Name         string
+	Kind         byte // '0' regular, '5' dir, '2' symlink
+	Mode         uint64
+	Uname, Gname string
+	MTime        int64
+	Size         int64
+	Link         string
+	Src          string
+	Flags        uint64
+	InPayload    bool
+}
+
+func (m Member) Enc() string {
+	return fmt.Sprintf("%s %d %d %s %s %d %d %s %s %d %s", H(m.Name), m.Kind, m.Mode, H(m.Uname), H(m.Gname), m.MTime, m.Size, H(m.Link), H(m.Src), m.Flags, B(m.InPayload))
+}
+
+func (m Member) String() string {
+	return fmt.Sprintf("{%q kind=%c mode=%o %s:%s mtime=%d size=%d link=%q src=%q flags=%d payload=%v}", m.Name, m.Kind, m.Mode, m.Uname, m.Gname, m.MTime, m.Size, m.Link, m.Src, m.Flags, m.InPayload)
+}
+
+func EncMembers(ms []Member) string {
+	var b strings.Builder
+	fmt.Fprintf(&b, "%d", len(ms))
+	for _, m := range ms {
+		b.WriteString(" ")
+		b.WriteString(m.Enc())
+	}
+	return b.String()
+}
+
+func ParseMembers(ans string) ([]Member, error) {
+	toks := strings.Fields(ans)
+	if len(toks) == 0 {
+		return nil, fmt.Errorf("empty answer")
+	}
+	n, e := strconv.Atoi(toks[0])
+	if e != nil || len(toks) != 1+11*n {
+		return nil, fmt.Errorf("bad members answer %q", ans)
+	}
+	res := make([]Member, n)
+	for i := range res {
+		t := toks[1+11*i:]
+		m := &res[i]
+		m.Name, _ = UnH(t[0])
+		k, _ := strconv.Atoi(t[1])
+		m.Kind = byte(k)
+		m.Mode, _ = strconv.ParseUint(t[2], 10, 64)
+		m.Uname, _ = UnH(t[3])
+		m.Gname, _ = UnH(t[4])
+		m.MTime, _ = strconv.ParseInt(t[5], 10, 64)
+		m.Size, _ = strconv.ParseInt(t[6], 10, 64)
+		m.Link, _ = UnH(t[7])
+		m.Src, _ = UnH(t[8])
+		m.Flags, _ = strconv.ParseUint(t[9], 10, 64)
+		m.InPayload = t[10] == "1"
+	}
+	return res, nil
+}
+
+// EncContentsOut encodes a plan in the 10-token-per-entry output format.
+func EncContentsOut(cs []Content) string {
+	var b strings.Builder
+	fmt.Fprintf(&b, "%d", len(cs))
+	for _, c := range cs {
+		fi := c.Info
+		has := "1"
+		if fi == nil {
+			fi = &FileInfo{MTime: ZeroTime}
+			has = "0"
+		}
+		fmt.Fprintf(&b, " %s %s %s %s %s %s %s %d %d %d", H(c.Src), H(c.Dst), H(c.Type), H(c.Packager), has,
+			H(fi.Owner), H(fi.Group), fi.Mode, fi.MTime, fi.Size)
+	}
+	return b.String()
+}
